@@ -75,6 +75,20 @@ main(int argc, char **argv)
                         back[n - 2] = 0x40;
                 put(isal_zero_detect(back, n) != 0);
         }
+        /* zero detection: every length up to 300, one non-zero byte at the first, the last and every 5th position (as one bit mask per length) */
+        {
+                static unsigned char zb[400];
+                int n, pos;
+                for (n = 0; n <= 300; n++) {
+                        uint64_t acc = isal_zero_detect(zb + (n % 5), n) != 0;
+                        for (pos = 0; pos < n; pos += (pos == 0 || pos + 5 < n - 1) ? ((pos % 5) ? 5 - pos % 5 : 5) : 1) {
+                                zb[(n % 5) + pos] = (unsigned char) (1 << (pos % 8));
+                                acc = acc * 3 + (isal_zero_detect(zb + (n % 5), n) != 0);
+                                zb[(n % 5) + pos] = 0;
+                        }
+                        put(acc);
+                }
+        }
         /* erasure code through the public entry points: tables, encode, update; k = 10 sources, up to 14 parity rows */
         for (li = 0; li < sizeof(eclens) / sizeof(eclens[0]); li++) {
                 int len = eclens[li], k = 10, rows, r, j;
